@@ -7,6 +7,7 @@ from .. import paths
 from ..core import FUNC, call_attr, calls_in, const, dotted, is_const, kwarg, norm, text, walk_local
 
 EXPLANATION = [
+    'C06.lmp-pending: Controller.send_lmp_packet returns, on every path, a future created by that very call and registers it under (peer, opcode): a second request to the same peer can never be resolved by the answer to an earlier one.',
     'C06.pending-owner: a pending-procedure slot of the controller (pending_le_connection, ...) is cleared only in functions that read it first, i.e. by the code that concludes or cancels that very procedure.',
     'C06.addr-origin: the identity under which a controller stores an LE connection (the peer\'s address taken from the opposite '
     'field of the connect PDU) is the identity every later sender uses: LL control PDUs and ACL data are sent from the connection\'s '
@@ -255,7 +256,29 @@ def pending_owner(ctx):
     R.check(n >= 2, rule, f'{CTRL} | pending slots', f'{n} clearing sites analysed', f'only {n} clearing sites of pending_* slots found')
 
 
+
+def lmp_pending(ctx):
+    """Each LMP request waits on its own, new, response future."""
+    from .. import sym
+    R, p = ctx.r, ctx.p
+    rule = 'C06.lmp-pending'
+    fn = p.find(f'{CTRL}.send_lmp_packet')
+    if fn is None:
+        R.bad(rule, f'{CTRL}.send_lmp_packet', 'anchor missing')
+        return
+    res = paths.run(fn, sym.Sym(no_subst=sym.object_locals(fn) - {'future'}), sym.Sym.init())
+    rets = {}
+    for k, facts, store, extra, w in sym.exits(res):
+        rets.setdefault(store.get('<return>'), []).append(' '.join(w))
+    ok = bool(rets) and all(r is not None and r.endswith('create_future()') for r in rets)
+    R.check(ok, rule, f'{CTRL}.send_lmp_packet | fresh future per request', 'every path returns a future created by this call',
+            f'send_lmp_packet can hand back a future that already existed ({sorted(str(r) for r in rets)}): the second request to the same peer is "answered" by the response to the first one (a connection is reported before the peer accepted it)', p.loc(fn))
+    stores = [n for n in walk_local(fn) if isinstance(n, ast.Assign) and any(isinstance(t, ast.Subscript) and 'classic_pending_commands' in norm(t) or (isinstance(t, ast.Subscript) and norm(t.slice) == 'packet.opcode') for t in n.targets)]
+    R.check(len(stores) == 1 and 'receiver_address' in norm(fn) and any(norm(t.slice) == 'packet.opcode' for n in stores for t in n.targets if isinstance(t, ast.Subscript)), rule, f'{CTRL}.send_lmp_packet | registered by peer and opcode', 'the future is registered under (receiver address, opcode)', 'the pending LMP future is not registered under (peer, opcode)', p.loc(fn))
+
+
 RULES = [
+    ('C06.lmp-pending', lmp_pending),
     ('C06.pending-owner', pending_owner),
     ('C06.addr-origin', addr_origin),
     ('C06.waiter-match', waiter_match),
